@@ -72,7 +72,7 @@ func (f *in) Underlying() interface{} { return nil }
 func (f *in) Listen(onMsg func(msg []byte, milliseconds int32), conf drivers.ListenConfig) (stopFn func(), err error) {
 	//fmt.Printf("listeining from in port of %s\n", f.Driver.name)
 
-	f.last = time.Now()
+	f.last = f.now // the time stamps are on the driver's own clock (see Sleep), not on the wall clock
 	f.stopListening = false
 
 	stopFn = func() {
